@@ -38,7 +38,9 @@ func (c *Conn) writeCopyOK(tag string, data *imap.CopyData) error {
 	}
 
 	enc.Atom(tag).SP().Atom("OK").SP()
-	if data != nil {
+	if data != nil && len(data.SourceUIDs) > 0 {
+		// No COPYUID if no message has been copied (RFC 4315 section 3); an
+		// empty set cannot be encoded
 		enc.Special('[')
 		enc.Atom("COPYUID").SP().Number(data.UIDValidity).SP().NumSet(data.SourceUIDs).SP().NumSet(data.DestUIDs)
 		enc.Special(']').SP()
